@@ -61,6 +61,8 @@ var errTable = map[string][]errSpec{
 var errExceptions = []errFlowException{
 	{"p2p.sendMessage", "invoke:Close", "a failed Close of a stream whose responses were all read is only logged: the request itself succeeded"},
 	{"p2p.sendMessage", "invoke:SetDeadline", "a failed SetDeadline is only logged: the request proceeds without a stream deadline, the request context still bounds it"},
+	{"p2p.sendMessage", "invoke:SetReadDeadline", "the same step written for the read side only (C18.e read-side-deadline requires that it is there)"},
+	{"p2p.sendMessage", "invoke:SetWriteDeadline", "the same step written for the write side only"},
 	{"sync.(*Syncer).networkHead", "syncHead[H]).Head#1", "by design (C19.b failed-request-keeps-head): when the request for a more recent head fails, the current subjective head is returned with a nil error"},
 	{"sync.(*Syncer).networkHead", "incomingNetworkHead", "by design (C19.b): a refused soft-failing head leaves the subjective head unchanged, returned with a nil error"},
 	{"sync.(*Syncer).Start$1", "subjectiveTail", "by design: the gossip validator triggers pruning lazily; a failed tail renewal is logged and does not invalidate the head that was just verified and adopted"},
